@@ -165,7 +165,7 @@ impl<'a, 'tcx> Dump<'a, 'tcx> {
                     aj.push(o);
                 }
                 self.base("Match", e)
-                    .with("src", J::s(format!("{:?}", match_source)))
+                    .with("src", J::s(format!("{:?}", match_source).split('(').next().unwrap_or("").to_string()))
                     .with("scrut", self.expr(*scrutinee))
                     .with("arms", J::Arr(aj))
             }
